@@ -208,16 +208,17 @@ theorem harmless_outcomes_do_not_abort (c : Circ) (fuel : Nat) (s : St) (d : Nat
     `FSM._event` (only possible through the window `with self._enable_event` around the entry action
     or the start of a zero-delay timer) is parked – exactly one – and acknowledged with True -/
 theorem chained_request_is_parked (dlv : Dlv) (b : Blk) (d : Nat) (stk0 : List Frame) (s : St)
-    (ns : Nat) (ha : s.fsmActive d = true) (hn : s.nextEv d = Option.none) :
-    fsmAccept dlv b d stk0 s ns = ({ s with nextEv := upd s.nextEv d (some ns) }, .ret (.bool true)) := by
+    (ns : Nat) (data : Data) (ha : s.fsmActive d = true) (hn : s.nextEv d = Option.none) :
+    fsmAccept dlv b d stk0 s ns data =
+      ({ s with nextEv := upd s.nextEv d (some (ns, data)) }, .ret (.bool true)) := by
   unfold fsmAccept
   simp [ha, hn]
 
 /-- … a second request in the same transition raises EdzedCircuitError ("Forbidden event
     multiplication") inside the handler, which stops the simulation (`exception_leaving_handler_aborts`) -/
 theorem second_chained_request_is_refused (dlv : Dlv) (b : Blk) (d : Nat) (stk0 : List Frame) (s : St)
-    (ns ns' : Nat) (ha : s.fsmActive d = true) (hn : s.nextEv d = some ns') :
-    fsmAccept dlv b d stk0 s ns = (s, .exc .circuitError) := by
+    (ns : Nat) (data : Data) (nx : Nat × Data) (ha : s.fsmActive d = true) (hn : s.nextEv d = some nx) :
+    fsmAccept dlv b d stk0 s ns data = (s, .exc .circuitError) := by
   unfold fsmAccept
   simp [ha, hn]
 
@@ -228,7 +229,7 @@ theorem second_chained_request_is_refused (dlv : Dlv) (b : Blk) (d : Nat) (stk0 
 theorem cond_true_accepts_event (dlv : Dlv) (b : Blk) (d : Nat) (stk0 : List Frame) (s s' : St)
     (et : EType) (data : Data) (ns : Nat) (ht : fsmTarget b (s.fstate d) et = .to ns)
     (hc : fsmCond dlv b d s et data = (s', .ret (.bool true))) :
-    fsmEvent dlv b d stk0 s et data = fsmAccept dlv b d stk0 s' ns := by
+    fsmEvent dlv b d stk0 s et data = fsmAccept dlv b d stk0 s' ns data := by
   unfold fsmEvent
   simp [ht, hc, Val.bool, Val.truthy, Atom.truthy]
 
@@ -313,6 +314,25 @@ theorem window_is_closed (c : Circ) (fuel : Nat) (b : Blk) (d : Nat) (stk0 : Lis
     (fsmWindow (deliver c fuel) b d stk0 s wb).1.stack = s.stack :=
   ⟨(fsmWindow_frm (deliver_frm c fuel) b d stk0 s wb hs).active,
    (fsmWindow_frm (deliver_frm c fuel) b d stk0 s wb hs).stack⟩
+
+/-- the `duration` item of the event that caused the transition overrides the default duration of the timed
+    state; absent (or None) the default applies -/
+theorem duration_item_overrides_default (dflt : Nat) (q : Rat) (k : Kind) :
+    effDuration Option.none dflt = dflt ∧ effDuration (some Val.none) dflt = dflt ∧
+    effDuration (some (.atom (.num q k))) dflt = (if q ≤ 0 then 0 else 1) := ⟨rfl, rfl, rfl⟩
+
+/-- a zero (or negative) duration – by default or through the `duration` item – makes the expiry a nested
+    `self.event(timed_event)` INSIDE the documented window (`_start_timer` runs under `_enable_event`): it is
+    the one chained transition, parked like a request of the entry action (`chained_request_is_parked`);
+    a positive one only arms the timer, whose expiry is a later top-level event (`timer_expiry_is_an_event`) -/
+theorem zero_duration_is_a_chained_transition (dlv : Dlv) (b : Blk) (d : Nat) (s : St) (st : Nat)
+    (duration : Option Val) (ev : EType) (dur : Nat) (ht : b.timed.getD st Option.none = some (ev, dur)) :
+    winBody dlv b d s (.startTimer st duration) =
+      if effDuration duration dur = 0 then dlv s d ev []
+      else if s.timersEnabled then ({ s with timer := upd s.timer d (some ev) }, .ret .none)
+      else (s, .ret .none) := by
+  unfold winBody
+  simp only [ht]
 
 /-- the expiry of a timer is an event like any other: it enters through `deliver` (guard, frames,
     refusal, abort), so all theorems above apply to timer-driven transitions; no block is left locked -/
@@ -638,6 +658,21 @@ example : (rawSend exChain exFsmReady 0 (.name "e0") []).2 = .ret (.bool true)
     ∧ (rawSend exChain exFsmReady 0 (.name "e0") []).1.error = Option.none
     ∧ (rawSend exChain exFsmReady 0 (.name "e0") []).1.active 0 = false
     ∧ (rawSend exChain exFsmReady 0 (.name "e0") []).1.trace.length = 4 := by decide +kernel
+
+/-- a timed state s1 (default 5 s, expiry -> s0): the event `e0` with `duration=0` makes the expiry a chained
+    transition – the FSM is back in s0 when `event()` returns, no timer armed –; without the item the timer is
+    armed and the FSM stays in s1 -/
+def exDuration : Circ :=
+  ⟨[{ kind := .fsm, nStates := 2, trans := [("e0", some 0, some 1), ("e1", some 1, some 0)],
+      timed := [Option.none, some (.name "e1", 5)] }]⟩
+
+example : (rawSend exDuration exFsmReady 0 (.name "e0") [("duration", .int 0)]).1.fstate 0 = some 0
+    ∧ ((rawSend exDuration exFsmReady 0 (.name "e0") [("duration", .int 0)]).1.timer 0).isNone = true
+    ∧ (rawSend exDuration exFsmReady 0 (.name "e0") [("duration", .int 0)]).1.error = Option.none
+    ∧ (rawSend exDuration exFsmReady 0 (.name "e0") []).1.fstate 0 = some 1
+    ∧ ((rawSend exDuration exFsmReady 0 (.name "e0") []).1.timer 0).isSome = true
+    ∧ (rawSend exDuration exFsmReady 0 (.name "e0") [("duration", .int 0)]).1.active 0 = false := by
+  decide +kernel
 
 /-- the same FSM with an on_enter event of s1 (not the entry action) leading back to it: refused,
     the simulation is stopped -/
